@@ -646,6 +646,60 @@ func c03StrOracle(c *Ctx, g *codecGen) {
 	}
 }
 
+// ---------------------------------------------------------------------------------------
+// decode-level stream: the WIRE bytes of an issuance input's witness fields (issuance program, vm
+// version, asset definition) are altered while the asset id in its commitment is left alone.
+// (Built by decoding the original, changing the field of the decoded object — its cached asset id
+// stays — and re-encoding.) Such a text must be rejected (errBadAssetID), or at least must not get
+// the ids of the original.
+func c03IssuanceWireOracle(c *Ctx, text []byte) {
+	base := cloneTx(text)
+	id0 := txIDOf(base)
+	done := false
+	for i, in := range base.Inputs {
+		if _, ok := in.TypedInput.(*types.IssuanceInput); !ok || done {
+			continue
+		}
+		done = true // the first issuance input of the transaction
+		for _, m := range []struct {
+			name string
+			f    func(ii *types.IssuanceInput)
+		}{
+			{"issuance.program", func(ii *types.IssuanceInput) { ii.IssuanceProgram = bump(ii.IssuanceProgram) }},
+			{"issuance.program.lastbyte", func(ii *types.IssuanceInput) {
+				if n := len(ii.IssuanceProgram); n > 0 {
+					ii.IssuanceProgram = append([]byte{}, ii.IssuanceProgram...)
+					ii.IssuanceProgram[n-1] ^= 0x10
+				} else {
+					ii.IssuanceProgram = []byte{0x51}
+				}
+			}},
+			{"issuance.vmversion", func(ii *types.IssuanceInput) { ii.VMVersion++ }},
+			{"issuance.assetdefinition", func(ii *types.IssuanceInput) { ii.AssetDefinition = bump(ii.AssetDefinition) }},
+		} {
+			t := cloneTx(text) // decoded: the issuance carries the asset id of the commitment
+			m.f(t.Inputs[i].TypedInput.(*types.IssuanceInput))
+			wire, err := t.MarshalText()
+			if err != nil || string(wire) == string(text) {
+				continue
+			}
+			line, tx := c03TxLine(wire)
+			c.Op("tx "+string(wire), line)
+			c.Count("wiremut:issuance-witness")
+			if tx == nil {
+				continue // rejected: fine
+			}
+			sameInput := len(tx.InputIDs) > i && tx.InputIDs[i] == types.NewTx(*base).InputIDs[i]
+			if tx.ID == id0 || sameInput {
+				failLimited(c, "issuance-witness-not-bound-to-commitment:"+m.name,
+					long(fmt.Sprintf("input %d: %s altered on the wire, asset id of the commitment kept: the text decodes and gets the original's ids (tx id %s); original=%s altered=%s", i, m.name, id0.String(), text, wire)))
+			} else {
+				failLimited(c, "issuance-witness-mismatch-accepted:"+m.name, long(fmt.Sprintf("input %d: altered=%s", i, wire)))
+			}
+		}
+	}
+}
+
 // c03AllKindsTx: a small transaction with a spend, a veto and an issuance input and two outputs,
 // swept with EVERY delta on EVERY integer field once per run
 func c03AllKindsTx(g *codecGen) []byte {
@@ -898,6 +952,9 @@ func c03Line(c *Ctx, line string) {
 		c.Op(line, l)
 		if tx != nil {
 			c03OracleTx(c, text)
+			if c03TxsSampled < 100 || c03TxsSampled%4 == 0 {
+				c03IssuanceWireOracle(c, text)
+			}
 			if c03TxsSampled++; c03TxsSampled <= 400 || c03TxsSampled%3 == 0 {
 				c03IntOracle(c, text, false)
 			}
@@ -939,6 +996,7 @@ func runC03(c *Ctx) {
 	}
 	g := &codecGen{r: c.Rng, count: c.Count}
 	c03StrOracle(c, g)
+	c03IssuanceWireOracle(c, c03StrBaseTx(g))
 	// every integer field × every delta, once per run, on a transaction with all committed input kinds
 	{
 		text := c03AllKindsTx(g)
